@@ -18,7 +18,7 @@ ID = "C12"
 RULE = (
     "Histories (4-25 steps) over 1-3 datasets (typed with MetaData-adding callbacks incl. empty ones, and untyped; executor "
     "returning a unique sentinel per call or raising a unique exception): derivations with all operators, MetaData (incl. "
-    "empty), QMetaData and the four result terminals; value(title), value_async with and without an override executor; "
+    "empty), QMetaData and the four result terminals; value(title), value_async with and without an override executor (a plain coroutine function, or a callable recorder object that is falsy while its log is empty); "
     "concurrent batches of 2-5 value_async coroutines (each with its own title, the same stream possibly twice) on streams of (different) datasets whose executors wait on "
     "harness-owned gates that are released in a generated permutation, every coroutine stepped by hand; hand-assembled "
     "queries with no root or two roots. Non-trivial = >=2 datasets and (a batch released out of start order, or an "
@@ -165,7 +165,7 @@ def check(case) -> Result:
     roots = [DS(i, x["typed"], x["mode"], x.get("exc", 0)) for i, x in enumerate(case["roots"])]
     streams = [[d, i, None] for i, d in enumerate(roots)]  # stream, root index, parent
     executed_parents = set()
-    feats = {"batch-out-of-order": False, "exec-after-rederive": False, "override": False, "raise": False, "terminal-exec": False, "batch-distinct-titles": False, "batch-same-stream-twice": False}
+    feats = {"batch-out-of-order": False, "exec-after-rederive": False, "override": False, "raise": False, "terminal-exec": False, "batch-distinct-titles": False, "batch-same-stream-twice": False, "override-falsy-callable": False}
 
     def total_calls():
         return [len(d.calls) for d in roots]
@@ -256,6 +256,21 @@ def check(case) -> Result:
                     async def exe(a, t=None):
                         box.append({"ast": a, "title": t, "out": Sentinel(("override", step))})
                         return box[-1]["out"]
+
+                    if step % 2 == 1:
+                        # the override need not be a plain function: a recording executor OBJECT that exposes its (still empty)
+                        # call log through the container protocol is callable and falsy
+                        plain = exe
+
+                        class Recorder:
+                            def __len__(self):
+                                return len(box)
+
+                            def __call__(self, a, t=None):
+                                return plain(a, t)
+
+                        exe = Recorder()
+                        feats["override-falsy-callable"] = True
 
                     err = expect_outcome(lambda: _run(s.value_async(exe, title=title)), lambda: box[-1] if box else None, what)
                     expected_counts = list(before)
